@@ -105,3 +105,77 @@ PROPS["C15"] = {
 }
 PROPS["C05"]["e2"] = [E("copy_bytes_step", "p_copy", "lemma_copy_bytes"), E("block_job", "p_parblock", "lemma_block_job")]
 PROPS["C05"]["technique"] = BOTH_TECH
+
+
+LIBFS_ASSUME = [
+    "kernel contract used by the libfs-level summaries: copy_file_range returns Ok(k <= request) or an errno; lseek(SEEK_DATA/SEEK_HOLE) answers within [arg, len] "
+    "(data offsets are not holes, EOF is a hole, ENXIO when nothing further); FIEMAP returns sorted non-overlapping extents starting at fm_start, LAST only on the final extent",
+    "file offsets fit off_t (<= 2^63-1)",
+]
+
+PROPS["C19"] = {
+    "engine": "mir-smt", "technique": E2_TECH,
+    "level_text": "symbolic execution of merge_extents for every sorted extent list of up to 4 (quick) / 6 (thorough) extents over symbolic 64-bit offsets with a "
+                  "universally quantified byte position; map_extents paging over the FIEMAP contract; next_sparse_segments over the SEEK_DATA/SEEK_HOLE contract",
+    "level_note": "trusted: MIR interpreter, Vec model (concrete length per path), the kernel contracts listed under assumptions; lists longer than the bound and pages fuller than 2 extents are outside",
+    "assumptions": LIBFS_ASSUME,
+    "e2": [E("merge_extents", "p_libfs", "lemma_merge_extents"), E("map_extents", "p_libfs", "lemma_map_extents"),
+           E("fiemap_call", "p_libfs", "lemma_fiemap_call"), E("sparse_segments", "p_libfs", "lemma_sparse_segments")],
+}
+PROPS["C11"] = {
+    "engine": "mir-smt", "technique": E2_TECH,
+    "level_text": "code-side obligations of hole preservation, each decided symbolically: the heuristic, the segment search (cursors repositioned to the data start, "
+                  "only [data, hole) copied), the destination sized by ftruncate only, parblock queues only mapped extents",
+    "level_note": "assumed: a range that is never written after ftruncate occupies no blocks (filesystem contract); real st_blocks is not modelled",
+    "assumptions": L2_ASSUME + LIBFS_ASSUME + ["filesystem contract: never-written ranges after ftruncate are holes"],
+    "e2": [E("probably_sparse", "p_libfs", "lemma_probably_sparse"), E("sparse_segments", "p_libfs", "lemma_sparse_segments"),
+           E("copy_sparse_step", "p_copy", "lemma_copy_sparse"), E("queue_file_blocks", "p_parblock", "lemma_queue_file_blocks"),
+           E("metadata_helpers", "p_libfs", "lemma_metadata_helpers"), E("handle_new", "p_handle", "lemma_handle_new")],
+}
+PROPS["C14"] = {
+    "engine": "mir-smt", "technique": E2_TECH,
+    "level_text": "copy_node and the Special arms of both workers enumerated symbolically: node type/mode/device-number provenance, remove-then-mknod order, no-clobber, never opened",
+    "level_note": "trusted: MIR interpreter; mknod's own umask handling is the kernel's; walker classification is covered under C02's walker lemmas when claimed",
+    "assumptions": L2_ASSUME,
+    "e2": [E("copy_node", "p_libfs", "lemma_copy_node"), E("copy_worker", "p_workers", "lemma_copy_worker"),
+           E("dispatch_worker", "p_workers", "lemma_dispatch_worker")],
+}
+PROPS["C12"] = {
+    "engine": "mir-smt", "technique": E2_TECH,
+    "level_text": "ChannelUpdater::send for arbitrary running totals/block sizes; Copied(n) == kernel count in the parfile loop (inductive step) and the block job",
+    "level_note": "trusted: MIR interpreter; cross-thread ordering of Size before Copied rests on channel FIFO + program order (not executed); stream end (Arc drop of the updater) is structural",
+    "assumptions": L2_ASSUME,
+    "e2": [E("channel_updater", "p_feedback", "lemma_channel_updater"), E("copy_bytes_step", "p_copy", "lemma_copy_bytes"),
+           E("block_job", "p_parblock", "lemma_block_job")],
+}
+PROPS["C03"] = {
+    "engine": "mir-smt", "technique": E2_TECH,
+    "level_text": "CopyHandle::new explored with a symbolic alias relation between source and destination: any mutating call reachable while they are the same inode is a violation; "
+                  "sources only opened read-only; worker arms never mutate the source path",
+    "level_note": "trusted: MIR interpreter, summaries of std::fs; kill points = prefixes of the mutating-call sequence of one operation; main's textual check is covered under C16 when claimed",
+    "assumptions": L2_ASSUME,
+    "e2": [E("handle_new", "p_handle", "lemma_handle_new"), E("copy_worker", "p_workers", "lemma_copy_worker"),
+           E("dispatch_worker", "p_workers", "lemma_dispatch_worker")],
+}
+PROPS["C20"] = {
+    "engine": "mir-smt", "technique": E2_TECH,
+    "level_text": "invariant instead of big trees: the dispatcher keeps no handle after queue_file_blocks returns, a parfile worker drops its handle before the next recv, "
+                  "the block pool is built with a constant queue bound and `workers` threads",
+    "level_note": "assumed: blocking-threadpool's bounded queue blocks the producer when full; RLIMIT arithmetic (2*(128+workers+1) descriptors) is a remark",
+    "assumptions": L2_ASSUME + ["blocking-threadpool: execute() blocks while queue_len jobs are pending"],
+    "e2": [E("queue_file_blocks", "p_parblock", "lemma_queue_file_blocks"), E("copy_worker", "p_workers", "lemma_copy_worker"),
+           E("dispatch_worker", "p_workers", "lemma_dispatch_worker"), E("partition", "p_parblock", "lemma_partition")],
+}
+PROPS["C04"]["e2"] += [E("handle_new", "p_handle", "lemma_handle_new"), E("copy_worker", "p_workers", "lemma_copy_worker"),
+                       E("dispatch_worker", "p_workers", "lemma_dispatch_worker"), E("cfr", "p_libfs", "lemma_cfr"),
+                       E("metadata_helpers", "p_libfs", "lemma_metadata_helpers"), E("map_extents", "p_libfs", "lemma_map_extents"),
+                       E("sparse_segments", "p_libfs", "lemma_sparse_segments"), E("copy_node", "p_libfs", "lemma_copy_node"),
+                       E("channel_updater", "p_feedback", "lemma_channel_updater")]
+PROPS["C05"]["e2"] += [E("cfr", "p_libfs", "lemma_cfr"), E("fiemap_call", "p_libfs", "lemma_fiemap_call"), E("map_extents", "p_libfs", "lemma_map_extents"),
+                       E("reflink", "p_libfs", "lemma_reflink"), E("queue_file_blocks", "p_parblock", "lemma_queue_file_blocks")]
+PROPS["C05"]["assumptions"] += LIBFS_ASSUME
+PROPS["C15"]["e2"] += [E("reflink", "p_libfs", "lemma_reflink")]
+PROPS["C10"]["e2"] += [E("metadata_helpers", "p_libfs", "lemma_metadata_helpers"), E("copy_worker", "p_workers", "lemma_copy_worker")]
+PROPS["C18"]["e2"] += [E("metadata_helpers", "p_libfs", "lemma_metadata_helpers"), E("copy_worker", "p_workers", "lemma_copy_worker")]
+PROPS["C01"]["e2"] += [E("handle_new", "p_handle", "lemma_handle_new"), E("sparse_segments", "p_libfs", "lemma_sparse_segments"),
+                       E("metadata_helpers", "p_libfs", "lemma_metadata_helpers")]
